@@ -93,9 +93,26 @@ class SkipStageHandler(StabilizeHandler[SkipStage]):
             downstream_stages = self.repository.get_downstream_stages(execution.id, stage.ref_id)
             phase = stage.synthetic_stage_owner
 
+            # A skipped stage is never planned, so before/after stages that were
+            # declared with the workflow would stay NOT_STARTED for good (and a
+            # later cancel finds the parent finished and never reaches them):
+            # they are skipped together with their parent.
+            orphans: list[StageExecution] = []
+            frontier = [stage.id]
+            while frontier:
+                for child in self.repository.get_synthetic_stages(execution.id, frontier.pop()) or []:
+                    frontier.append(child.id)
+                    if child.status == WorkflowStatus.NOT_STARTED:
+                        child.execution = execution
+                        self.set_stage_status(child, WorkflowStatus.SKIPPED)
+                        child.end_time = stage.end_time
+                        orphans.append(child)
+
             # Atomic: store stage + push all downstream/parent messages together
             with self.repository.transaction(self.queue) as txn:
                 txn.store_stage(stage)
+                for child in orphans:
+                    txn.store_stage(child)
 
                 # Recorded INSIDE the transaction: the event joins the commit
                 # of the state it describes. Recorded before it, a crash or a
@@ -106,6 +123,10 @@ class SkipStageHandler(StabilizeHandler[SkipStage]):
                     self.event_recorder.record_stage_skipped(
                         stage, reason="Stage skipped", source_handler="SkipStageHandler"
                     )
+                    for child in orphans:
+                        self.event_recorder.record_stage_skipped(
+                            child, reason="Parent stage skipped", source_handler="SkipStageHandler"
+                        )
 
                 # Message deduplication
                 if message.message_id:
